@@ -800,6 +800,49 @@ def real_tree(code: str, lang: str, owner: Any, I: Any) -> Any:
     return _norm_tpl(parse_target(code, lang))
 
 
+def top_checks(ctx: Ctx, st: Any, src: str, tg: "Target", cases: List[Any], stream: str) -> None:
+    """The condition of the emitted `if (…) {` of `_transpile_invariant` (TypeScript, Java) against `transpileInvariant`."""
+    lang = tg.lang
+    todo = []
+    for owner, inv, real, cfg, e in cases:
+        if real[0] != "ok":
+            continue
+        try:
+            snippet, err = tg.gv._transpile_invariant(invariant=inv, symbol_table=st, environment=tg.env_for(owner))
+        except BaseException:  # noqa: B902
+            continue
+        if snippet is None or not str(snippet).startswith("if (") or " {\n" not in str(snippet):
+            continue
+        cond = str(snippet)[3: str(snippet).index(" {\n")]
+        long = len(real[1]) > 50 or "\n" in real[1]
+        todo.append((owner, inv, cond, cfg, e, long))
+    if not todo or not ctx.driver_ok:
+        return
+    answers = ctx.model([f"inv {lang} {cfg} {'1' if long else '0'} {e}" for _, _, _, cfg, e, long in todo])
+    for (owner, inv, cond, cfg, e, long), ans in zip(todo, answers):
+        ctx.count((lang, "top", e, cfg), nontrivial=True, stream=f"{stream}:{lang}:top")
+        ctx.traces_validated += 1
+        inp = {"model": src, "target": lang, "owner": str(owner.name), "invariant": inv.description,
+               "expr": mm.render_expr(mm.expr_from_project_tree(inv.body))}
+        try:
+            rtree = _norm_tpl(parse_target(cond, lang))
+        except ParseError as pe:
+            ctx.fail(inp, f"the condition of the emitted {lang} `if` is outside the expression grammar of the target: {pe}: {cond!r}",
+                     f"C09:emitted-syntax:{lang}")
+            continue
+        if not ans.startswith("ok "):
+            ctx.disagree(f"{stream}:{lang}:top", inp, cond, ans)
+            continue
+        try:
+            mtree = ("paren", _norm_tpl(tg.tree(ans.split(" ")[1].split(","), owner)))
+        except ParseError as pe:
+            ctx.disagree(f"{stream}:{lang}:top", inp, cond, f"model output cannot be rendered: {pe}")
+            continue
+        ctx.hit(f"{stream}:{lang}:top:{'long' if long else 'short'}")
+        if mtree != rtree:
+            ctx.disagree(f"{stream}:{lang}:top", inp, cond, show_tree(mtree))
+
+
 def emit_checks(ctx: Ctx, st: Any, src: str, stream: str = "emit") -> None:
     """Every invariant of the symbol table through the three real transpilers and the three models."""
     from aas_core_codegen import intermediate as I
@@ -831,6 +874,8 @@ def emit_checks(ctx: Ctx, st: Any, src: str, stream: str = "emit") -> None:
                 cases.append((owner, inv, real, cfg, e_wire))
         if not cases:
             continue
+        if lang in ("ts", "java"):
+            top_checks(ctx, st, src, tg, cases, stream)
         answers = ctx.model([f"emit {lang} {cfg} 0 {e}" for _, _, _, cfg, e in cases]) if ctx.driver_ok else [None] * len(cases)
         for (owner, inv, real, cfg, e), ans in zip(cases, answers):
             ctx.count((lang, e, cfg), nontrivial=e.count(",") > 3, stream=f"{stream}:{lang}")
@@ -1036,7 +1081,7 @@ def sources(ctx: Ctx) -> Iterator[Tuple[str, str, Any]]:
         fx = fx[:: 3]
     for name, text in fx:
         yield "fixture", text, name
-    for k in range(ctx.n(30, 400)):
+    for k in range(ctx.n(30, 300)):
         sub = ctx.rng.randrange(2**32)
         m = mm.random_mm(_random.Random(sub), size=2 + k % 4, features=model_features(k))
         yield "random", mm.render(m), {"k": k, "seed": ctx.seed, "subseed": sub}
@@ -1057,6 +1102,12 @@ def correspond(ctx: Ctx) -> None:
         "inputs = corpus + one hand-written model reaching every node class + fixture meta-models with invariants + seeded "
         "random meta-models (harness.mm); per invariant and target one comparison of the real transpiler output (parsed) with "
         "the model's output; non-trivial = expression with more than 3 tokens on the wire; distinct by (target, expression, cfg)")
+    ctx.assumptions.extend([
+        "PARTIAL: JSON (de)serialization and whole-SDK verdicts of the TypeScript / Java / C++ SDKs are NOT decided (no way to build them offline)",
+        "the semantics of the emitted TypeScript / Java / C++ operators (Model/TargetEval, Model/TargetSem) are modelled, not verified; "
+        "executed only for the TypeScript conditions (node) and for Java reference equality (javac + java)",
+        "the inferred type map and the is-optional maps of the Java / C++ inferrers are inputs of the transpiler models",
+    ])
     stream_emit(ctx)
 
 
@@ -1386,9 +1437,12 @@ class Observed:
         self.descr: Dict[str, Dict[str, List[List[str]]]] = {}
         self.gen_error: Dict[str, str] = {}
         self.pending: Dict[str, Any] = {}
+        self.tsdiff: Any = None
+        self.tsdiff_result: Any = None
+        self.only_tsdiff = False
 
 
-def observe(ctx: Ctx, label: Any, src: str, pool: Any) -> Optional[Observed]:
+def observe(ctx: Ctx, label: Any, src: str, pool: Any, m: Any = None, only_tsdiff: bool = False) -> Optional[Observed]:
     """Generate the four SDKs of one model; the tool-chain runs (node, javac+java, g++) are submitted to ``pool``."""
     sdk = mm.load_python_sdk(src, ctx.scratch() / f"py{ctx.evaluations}")
     try:
@@ -1397,9 +1451,19 @@ def observe(ctx: Ctx, label: Any, src: str, pool: Any) -> Optional[Observed]:
             return None
         st = sdk.symbol_table
         ob = Observed(label, src, st, python_reference(sdk, st))
+        ob.only_tsdiff = only_tsdiff
+        if m is not None:
+            prep = ts_differential_prepare(ctx, m, sdk, st, 12)
+            if prep is not None:
+                sc = ctx.scratch() / f"tsdiff{ctx.evaluations}"
+                sc.mkdir(parents=True, exist_ok=True)
+                prep["future"] = pool.submit(ts_differential_run, prep["script"], sc)
+                ob.tsdiff = prep
     finally:
         sdk.close()
     ob.pending = {}
+    if only_tsdiff:
+        return ob
     for lang in LANGS:
         root = ctx.scratch() / f"gen{ctx.evaluations}" / lang
         res = mm.generate(_TARGET_DIR[lang], src, root, symbol_table=st)
@@ -1459,6 +1523,9 @@ def decode_literals(ctx: Ctx, obs: List[Observed], pool: Any) -> Dict[Tuple[str,
         for lit, v in zip(need[key], fut.result()):
             out[(key, lit)] = v
     return out
+
+
+_LINE_BREAKS = "\r\x0b\x0c\x1c\x1d\x1e\x85\u2028\u2029"
 
 
 def _expect_units(lang_key: str, s: str) -> Tuple[int, ...]:
@@ -1569,7 +1636,11 @@ def judge(ob: Observed, dec: Dict[Tuple[str, str], Any]) -> List[Tuple[str, str,
             got_dec = [(n, dec.get((key, v))) for n, v in got_pairs]
             exp_dec = [(n, _expect_units(key, v)) for n, v in exp]
             if got_dec != exp_dec:
-                bad.append((f"C09:enum:{lang}", f"enumeration {t.name}: the Python SDK has {want_pairs!r}, the {lang} SDK maps {got_pairs!r}",
+                # a line boundary other than LF inside a literal value is split by the re-indentation of the generated block
+                # (`str.splitlines`), see finding C09-F4
+                brk = any(ch in v for _, v in want_pairs for ch in _LINE_BREAKS)
+                bad.append((f"C09:enum:{lang}" + (":line-separator" if brk else ""),
+                            f"enumeration {t.name}: the Python SDK has {want_pairs!r}, the {lang} SDK maps {got_pairs!r}",
                             {"target": lang, "enumeration": str(t.name)}))
     # ---- (b), (c) descriptions and count
     for t in st.our_types:
@@ -1772,34 +1843,232 @@ def _subtrees(t: Any) -> Iterator[Any]:
             yield from _subtrees(x)
 
 
-def oracle_sources(ctx: Ctx) -> Iterator[Tuple[str, str, Any]]:
+# ---- (d) the emitted TypeScript invariant conditions executed by node on instances, against the Python SDK's verdicts
+# (an invariant expression is plain ECMAScript; the helpers of common.ts are mirrored, verification functions are tables
+#  computed by the Python SDK's own functions on every string of the instance)
+
+_JS_PRELUDE = """
+const AasCommon = {
+  at: (a, i) => (i < 0 ? a[a.length + i] : a[i]),
+  every: (it) => { for (const x of it) { if (!x) return false; } return true; },
+  some: (it) => { for (const x of it) { if (x) return true; } return false; },
+  map: function* (it, f) { for (const x of it) yield f(x); },
+  range: function* (a, b) { for (let i = a; i < b; i++) yield i; },
+};
+function table(name, t) { return (x) => { if (typeof x !== 'string' || !Object.prototype.hasOwnProperty.call(t, x)) throw new Error('MISSING ' + name); return t[x]; }; }
+"""
+
+
+def _js_value(v: Any, st_info: Dict[str, Any]) -> str:
+    """A Python SDK value as an ECMAScript expression with the TypeScript SDK's representation."""
+    import enum as _enum
+    import math
+
+    if v is None:
+        return "null"
+    if isinstance(v, bool):
+        return "true" if v else "false"
+    if isinstance(v, _enum.Enum):
+        en, lits = st_info["enum_by_py"][type(v).__name__]
+        return f"AasTypes.{en}.{lits[v.name]}"
+    if isinstance(v, int):
+        if abs(v) > 2**53:
+            raise OverflowError("integer beyond the exact range of a number")
+        return str(v)
+    if isinstance(v, float):
+        return "NaN" if math.isnan(v) else ("Infinity" if v == math.inf else ("-Infinity" if v == -math.inf else repr(v)))
+    if isinstance(v, str):
+        return json.dumps(v)
+    if isinstance(v, (bytes, bytearray)):
+        return "new Uint8Array([" + ",".join(str(b) for b in v) + "])"
+    if isinstance(v, (list, tuple)):
+        return "[" + ",".join(_js_value(x, st_info) for x in v) + "]"
+    if isinstance(v, (set, frozenset)):
+        return "new Set([" + ",".join(sorted(_js_value(x, st_info) for x in v)) + "])"
+    cls = st_info["cls_by_py"].get(type(v).__name__)
+    if cls is None:
+        raise TypeError(f"no TypeScript representation for {type(v).__name__}")
+    fields = []
+    for ts_name, py_name in cls:
+        fields.append(f"{json.dumps(ts_name)}: {_js_value(getattr(v, py_name), st_info)}")
+    return "{" + ",".join(fields) + "}"
+
+
+def _strings_of(v: Any, out: set, depth: int = 0) -> None:
+    import enum as _enum
+
+    if isinstance(v, str):
+        out.add(v)
+    elif isinstance(v, (list, tuple, set, frozenset)):
+        for x in v:
+            _strings_of(x, out, depth + 1)
+    elif v is not None and not isinstance(v, (bool, int, float, bytes, bytearray, _enum.Enum)) and depth < 8:
+        for x in vars(v).values():
+            _strings_of(x, out, depth + 1)
+
+
+def ts_differential_prepare(ctx: Ctx, m: Any, sdk: Any, st: Any, n_instances: int) -> Optional[Dict[str, Any]]:
+    """Instances, the Python SDK's verdict per invariant of the root class, and the node script evaluating the real emitted
+    TypeScript condition of each invariant on the same instances."""
+    from aas_core_codegen import intermediate as I
+    from aas_core_codegen.parse import tree as T
+    from aas_core_codegen.python import naming as pn
+    from aas_core_codegen.typescript import naming as tn
+    from harness.props.c08 import run_verify
+
+    tg = Target("ts", st)
+    st_info: Dict[str, Any] = {"enum_by_py": {}, "cls_by_py": {}}
+    decl = ["const AasTypes = {"]
+    for t in st.our_types:
+        if isinstance(t, I.Enumeration):
+            lits = {str(pn.enum_literal_name(l.name)): str(tn.enum_literal_name(l.name)) for l in t.literals}
+            st_info["enum_by_py"][str(pn.enum_name(t.name))] = (str(tn.enum_name(t.name)), lits)
+            decl.append(f"  {tn.enum_name(t.name)}: {{" + ", ".join(f"{tn.enum_literal_name(l.name)}: {k}" for k, l in enumerate(t.literals)) + "},")
+        elif isinstance(t, (I.AbstractClass, I.ConcreteClass)):
+            st_info["cls_by_py"][str(pn.class_name(t.name))] = [(str(tn.property_name(p.name)), str(pn.property_name(p.name))) for p in t.properties]
+    decl.append("};")
+    try:
+        consts = ["const AasConstants = {"] + [
+            f"  {tn.constant_name(c.name)}: {_js_value(getattr(sdk.constants, str(pn.constant_name(c.name))), st_info)}," for c in st.constants] + ["};"]
+    except (OverflowError, TypeError):
+        return None
+    owners = [t for t in st.our_types if isinstance(t, I.ConcreteClass)]
+    emitted: Dict[str, List[Tuple[str, str]]] = {}
+    for owner in owners:
+        lst = []
+        for inv in owner.invariants:
+            if any(isinstance(n, T.MethodCall) for n in _walk_tree(inv.body)):
+                continue
+            try:
+                code, _, _, err = tg.real(owner, inv)
+            except BaseException:  # noqa: B902
+                continue
+            if code is not None:
+                lst.append((inv.description, code))
+        emitted[str(owner.name)] = lst
+    concrete = [c.name for c in m.classes if not c.abstract and not getattr(c, "impl_specific", False) and emitted.get(c.name)]
+    if not concrete:
+        return None
+    cases: List[Dict[str, Any]] = []
+    strings: set = set()
+    for c in st.constants:
+        _strings_of(getattr(sdk.constants, str(pn.constant_name(c.name))), strings)
+    for i in range(n_instances):
+        cname = concrete[i % len(concrete)]
+        try:
+            built = mm.random_instance(sdk, m, cname, ctx.rng, satisfy_invariants=[None, True, False][i % 3])
+        except mm.Impossible:
+            continue
+        inst = built.instance
+        root_cls = next((str(t.name) for t in owners if str(pn.class_name(t.name)) == type(inst).__name__), None)
+        if root_cls is None or not emitted.get(root_cls):
+            continue
+        errs, raised, _ = run_verify(sdk, inst)
+        if raised:
+            continue
+        try:
+            js = _js_value(inst, st_info)
+        except (OverflowError, TypeError):
+            ctx.hit("oracle:tsdiff:instance-not-representable")
+            continue
+        _strings_of(inst, strings)
+        failed = {d for d, path in errs if path == ""}
+        cases.append({"cls": root_cls, "js": js, "failed": sorted(failed), "show": repr(vars(inst))[:600]})
+    if not cases:
+        return None
+    tables = []
+    for f in st.verification_functions:
+        if len(f.arguments) != 1:
+            continue
+        pyf = getattr(sdk.verification, str(pn.function_name(f.name)), None)
+        if pyf is None:
+            continue
+        tab = {}
+        for sx in strings:
+            try:
+                r = pyf(sx)
+            except BaseException:  # noqa: B902
+                continue
+            if isinstance(r, bool):
+                tab[sx] = r
+        tables.append(f"const {tn.function_name(f.name)} = table({json.dumps(str(f.name))}, {json.dumps(tab)});")
+    lines = [_JS_PRELUDE] + decl + consts + tables + ["const CONDS = {};"]
+    for cls, lst in emitted.items():
+        lines.append(f"CONDS[{json.dumps(cls)}] = [")
+        for _, code in lst:
+            lines.append("  (that) => (" + code + "),")
+        lines.append("];")
+    lines.append("const CASES = [")
+    for c in cases:
+        lines.append(f"  [{json.dumps(c['cls'])}, {c['js']}],")
+    lines.append("];")
+    lines.append("const out = CASES.map(([cls, that]) => CONDS[cls].map((f) => { try { return f(that) ? 1 : 0; } catch (e) { return 'throw:' + String(e && e.message).slice(0, 60); } }));")
+    lines.append("console.log(JSON.stringify(out));")
+    return {"script": "\n".join(lines), "cases": cases, "emitted": emitted}
+
+
+def ts_differential_run(script: str, scratch: pathlib.Path) -> Any:
+    f = scratch / "tsdiff.js"
+    f.write_text(script, encoding="utf-8")
+    rc, out, err = _run(["node", str(f)], scratch)
+    if rc != 0:
+        return {"error": (err.strip().splitlines() or ["node failed"])[-1][:300]}
+    return json.loads(out)
+
+
+def ts_differential_judge(prep: Dict[str, Any], res: Any) -> List[Tuple[str, str, Dict[str, Any]]]:
+    bad: List[Tuple[str, str, Dict[str, Any]]] = []
+    if isinstance(res, dict):
+        bad.append(("C09:ts:conditions-not-ecmascript", "the emitted TypeScript conditions are not valid ECMAScript expressions: " + res["error"], {"target": "ts"}))
+        return bad
+    for case, verdicts in zip(prep["cases"], res):
+        for (descr, code), v in zip(prep["emitted"][case["cls"]], verdicts):
+            if isinstance(v, str):
+                continue  # a table miss or an exception: no verdict to compare
+            py_holds = descr not in case["failed"]
+            if bool(v) != py_holds:
+                astral = any(ord(ch) > 0xFFFF for ch in case["js"])
+                bad.append(("C09:ts:verdict:astral" if astral else "C09:ts:verdict",
+                            f"{case['cls']}: the Python SDK says the invariant {descr!r} {'holds' if py_holds else 'is violated'}, the emitted "
+                            f"TypeScript condition `{' '.join(code.split())}` evaluates to {'true' if v else 'false'} on {case['show']}",
+                            {"target": "ts", "owner": case["cls"], "invariant": descr, "instance": case["show"]}))
+    return bad
+
+
+def oracle_sources(ctx: Ctx) -> Iterator[Tuple[str, str, Any, Any]]:
+    """(stream, source, label, abstract model | None)"""
     import random as _random
 
     for c in corpus(ID):
         if "model" in c:
-            yield "corpus", c["model"], c.get("name", "corpus")
-    yield "constants", CONSTANTS_MODEL, "constants-model"
+            yield "corpus", c["model"], c.get("name", "corpus"), None
+    yield "constants", CONSTANTS_MODEL, "constants-model", None
     for name, text in fixture_sources()[:: (4 if ctx.tier == "quick" and not ctx.searching else 1)]:
-        yield "fixture", text, name
-    for k in range(ctx.n(2, 40)):
+        yield "fixture", text, name, None
+    for k in range(ctx.n(2, 16)):
         sub = ctx.rng.randrange(2**32)
         ft = mm.Features()
         ft.non_ascii_values = (k % 2 == 1)
         if k % 3 == 2:
             ft.joined_str_in_invariants = True
         m = mm.random_mm(_random.Random(sub), size=2 + k % 3, features=ft)
-        yield "random", mm.render(m), {"k": k, "seed": ctx.seed, "subseed": sub}
+        yield "random", mm.render(m), {"k": k, "seed": ctx.seed, "subseed": sub, "features": [n for n in ("non_ascii_values", "joined_str_in_invariants") if getattr(ft, n)]}, m
+    # more models for the differential execution of the TypeScript conditions only (cheap: no compiler)
+    for k in range(ctx.n(10, 60)):
+        sub = ctx.rng.randrange(2**32)
+        m = mm.random_mm(_random.Random(sub), size=2 + k % 4, features=model_features(k))
+        yield "tsdiff", mm.render(m), {"k": k, "seed": ctx.seed, "subseed": sub, "tsdiff": True}, m
 
 
-def run_oracle(ctx: Ctx, items: Sequence[Tuple[str, str, Any]]) -> List[Dict[str, Any]]:
+def run_oracle(ctx: Ctx, items: Sequence[Tuple[str, str, Any, Any]]) -> List[Dict[str, Any]]:
     from concurrent.futures import ThreadPoolExecutor
 
     obs: List[Observed] = []
     with ThreadPoolExecutor(max_workers=8) as pool:
         refs_f = pool.submit(java_reference_semantics, ctx.scratch())
-        for stream, src, label in items:
+        for stream, src, label, m in items:
             ctx.count(("oracle", src), nontrivial=True, stream="oracle:" + stream)
-            ob = observe(ctx, label, src, pool)
+            ob = observe(ctx, label, src, pool, m, only_tsdiff=(stream == "tsdiff"))
             if ob is None:
                 continue
             obs.append(ob)
@@ -1808,12 +2077,19 @@ def run_oracle(ctx: Ctx, items: Sequence[Tuple[str, str, Any]]) -> List[Dict[str
         for ob in obs:
             for lang, fut in ob.pending.items():
                 ob.consts[lang] = fut.result()
+            if ob.tsdiff is not None:
+                ob.tsdiff_result = ob.tsdiff["future"].result()
         refs = refs_f.result()
     results = []
     for ob in obs:
-        found = judge(ob, dec)
-        if refs:
+        found = [] if ob.only_tsdiff else judge(ob, dec)
+        if refs and not ob.only_tsdiff:
             found.extend(java_equality_failures(ob.st))
+        if ob.tsdiff is not None:
+            found.extend(ts_differential_judge(ob.tsdiff, ob.tsdiff_result))
+            ctx.hit("oracle:tsdiff:instances", len(ob.tsdiff["cases"]))
+            ctx.hit("oracle:tsdiff:verdicts", sum(1 for r in (ob.tsdiff_result if isinstance(ob.tsdiff_result, list) else []) for v in r if not isinstance(v, str)))
+            ctx.hit("oracle:tsdiff:no-verdict", sum(1 for r in (ob.tsdiff_result if isinstance(ob.tsdiff_result, list) else []) for v in r if isinstance(v, str)))
         results.append({"label": ob.label, "failures": [(sig, what) for sig, what, _ in found]})
         seen = set()
         for sig, what, detail in found:
@@ -1831,10 +2107,25 @@ def oracle(ctx: Ctx) -> None:
     run_oracle(ctx, list(oracle_sources(ctx)))
 
 
+def _model_of_label(label: Any) -> Any:
+    """The abstract model of a random input, re-created from its recorded sub-seed (needed to build instances)."""
+    import random as _random
+
+    if not isinstance(label, dict) or "subseed" not in label:
+        return None
+    k = label["k"]
+    if label.get("tsdiff"):
+        return mm.random_mm(_random.Random(label["subseed"]), size=2 + k % 4, features=model_features(k))
+    ft = mm.Features()
+    for n in label.get("features", []):
+        setattr(ft, n, True)
+    return mm.random_mm(_random.Random(label["subseed"]), size=2 + k % 3, features=ft)
+
+
 def replay(ctx: Ctx, data: Dict[str, Any]) -> Any:
     inp = data["failure"]["input"] if "failure" in data else data
     src = inp["model"]
-    res: Dict[str, Any] = {"oracle": run_oracle(ctx, [("replay", src, inp.get("label", "replay"))])}
+    res: Dict[str, Any] = {"oracle": run_oracle(ctx, [("replay", src, inp.get("label", "replay"), _model_of_label(inp.get("label")))])}
     if ctx.driver_ok:
         before = len(ctx.disagreements)
         st, err = mm.load(src)
